@@ -342,3 +342,159 @@ func runQuantifierLoop(p *Program, r *RuleResult) {
 	}
 	r.count("loop bodies", nBodies)
 }
+
+// R-FIELD-COVERAGE (C08): the structural cases of type equality compare every component of
+// the constructor, like with like.
+func init() {
+	register(&Rule{Name: "R-FIELD-COVERAGE", Min: 14,
+		Doc: "in the equality worker, for every type constructor the two asserted operands are compared on every structural field (child types, option lists, modes; a mode field may be read through Modality()), and each comparison pairs the same field of both operands",
+		Run: runFieldCoverage})
+}
+
+func runFieldCoverage(p *Program, r *RuleResult) {
+	fn, _ := findEqualityWorker(p)
+	name := fnName(fn)
+	if len(fn.Params) < 2 {
+		anchorFail("operands of %s", fn)
+	}
+	var lineage func(v ssa.Value, depth int) int
+	lineage = func(v ssa.Value, depth int) int {
+		if depth > 6 {
+			return 0
+		}
+		switch x := v.(type) {
+		case *ssa.Parameter:
+			if x == fn.Params[0] {
+				return 1
+			}
+			if x == fn.Params[1] {
+				return 2
+			}
+		case *ssa.Phi:
+			for _, e := range x.Edges {
+				if l := lineage(e, depth+1); l != 0 {
+					return l
+				}
+			}
+		case *ssa.ChangeInterface:
+			return lineage(x.X, depth+1)
+		}
+		return 0
+	}
+	// asserted operand values per type
+	type key struct {
+		T    string
+		side int
+	}
+	owners := map[ssa.Value]key{}
+	typesSeen := map[string]*types.Named{}
+	for _, b := range fn.Blocks {
+		for _, in := range b.Instrs {
+			ta, ok := in.(*ssa.TypeAssert)
+			if !ok || !ta.CommaOk || typeIsInterface(ta.AssertedType) {
+				continue
+			}
+			side := lineage(ta.X, 0)
+			T := namedOf(ta.AssertedType)
+			if side == 0 || T == nil {
+				continue
+			}
+			for _, u := range *ta.Referrers() {
+				if ex, ok := u.(*ssa.Extract); ok && ex.Index == 0 {
+					owners[ex] = key{T.Obj().Name(), side}
+					typesSeen[T.Obj().Name()] = T
+				}
+			}
+		}
+	}
+	// subject of a compared value: (owner, field)
+	subject := func(v ssa.Value) (ssa.Value, string) {
+		switch x := v.(type) {
+		case *ssa.UnOp:
+			if fa, ok := x.X.(*ssa.FieldAddr); ok {
+				_, n, _ := fieldNameOf(fa)
+				return fa.X, n
+			}
+		case *ssa.Call:
+			com := x.Common()
+			if com.IsInvoke() && com.Method.Name() == "Modality" {
+				return com.Value, "Modality()"
+			}
+			if sc := com.StaticCallee(); sc != nil && sc.Name() == "Modality" && len(com.Args) == 1 {
+				return com.Args[0], "Modality()"
+			}
+		}
+		return nil, ""
+	}
+	covered := map[string]map[string]bool{}
+	nCmp := 0
+	for _, c := range p.callsIn(fn) {
+		call, ok := c.(*ssa.Call)
+		if !ok {
+			continue
+		}
+		com := call.Common()
+		var x, y ssa.Value
+		switch {
+		case com.IsInvoke() && com.Method.Name() == "Equals":
+			x, y = com.Value, com.Args[0]
+		case com.StaticCallee() != nil && p.isFirstParty(com.StaticCallee()) && len(com.Args) >= 2 &&
+			types.Identical(com.Args[0].Type(), com.Args[1].Type()) && (isSessionTypeType(com.Args[0].Type()) || isOptionSlice(com.Args[0].Type())):
+			x, y = com.Args[0], com.Args[1]
+		default:
+			continue
+		}
+		ox, fx := subject(x)
+		oy, fy := subject(y)
+		kx, okx := owners[ox]
+		ky, oky := owners[oy]
+		if !okx || !oky || kx.T != ky.T || kx.side == ky.side {
+			continue
+		}
+		nCmp++
+		construct := fmt.Sprintf("pairing:%s.%s", kx.T, fx)
+		if fx == fy {
+			r.add(name, construct, Holds, p.instrPos(call), "")
+			if covered[kx.T] == nil {
+				covered[kx.T] = map[string]bool{}
+			}
+			covered[kx.T][fx] = true
+		} else {
+			r.add(name, construct, Violated, p.instrPos(call), fmt.Sprintf("field %s of one operand is compared with field %s of the other", fx, fy))
+		}
+	}
+	r.count("field comparisons", nCmp)
+	// coverage
+	for _, T := range p.sessionTypeImplementers() {
+		tn := T.Obj().Name()
+		if _, seen := typesSeen[tn]; !seen {
+			// the type-name constructor is handled by unfolding; every other constructor needs a case
+			if m := p.MethodOpt(T, "Polarity"); m != nil && p.noRet[m] {
+				continue
+			}
+			r.add(name, "case:"+tn, Violated, p.pos(fn.Pos()), "no structural case for constructor "+tn)
+			continue
+		}
+		// which field does Modality() return?
+		modField := ""
+		if m := p.MethodOpt(T, "Modality"); m != nil {
+			if ret := soleReturn(m); ret != nil {
+				if ld, ok := ret.Results[0].(*ssa.UnOp); ok {
+					_, modField, _ = fieldNameOf(ld.X)
+				}
+			}
+		}
+		for _, f := range structFields(T) {
+			if !(isSessionTypeType(f.Type()) || isOptionSlice(f.Type()) || isModalityType(f.Type())) {
+				continue
+			}
+			ok := covered[tn][f.Name()] || (f.Name() == modField && covered[tn]["Modality()"])
+			construct := fmt.Sprintf("covered:%s.%s", tn, f.Name())
+			if ok {
+				r.add(name, construct, Holds, p.pos(fn.Pos()), "")
+			} else {
+				r.add(name, construct, Violated, p.pos(fn.Pos()), fmt.Sprintf("component %s of %s is never compared: two types that differ only there are judged equal", f.Name(), tn))
+			}
+		}
+	}
+}
